@@ -35,6 +35,11 @@ CHECKS = {
   text="Kernel-checked over Model/Includes.lean for every file system and path-resolution function: C15_sound and C15_complete (expandLines b ls = ok out ⇔ ExpandsD b ls out: the result is the textual substitution of INCLUDE lines using at most b nesting levels), C15_five_levels (the public entry has budget 5), C15_limit (any INCLUDE at the limit raises the MaxNested ValueError), C15_missing (I/O error), C15_cycle (a self-including file fails for every budget), C15_no_include_identity and join_split (text without INCLUDE lines is returned byte-identical). Termination is by structural recursion on the budget. The same root-relative `resolve` is used at every depth by construction. Tied to Parser.load_includes by exact expanded-text correspondence on random include trees written to a temp dir; the oracle loads the cut documents through open/load/loads from two working directories and compares with loads of the single original text, plus depth ≥ 6, cyclic, missing-file and expand_includes=False variants.",
   note="Trusted: Lean kernel; hand model of load_includes/_get_include_filename (correspondence each run); the OS file system, os.path and text-mode newline translation are parameters supplied by the harness; Lark parsing of the expanded text is exercised by the oracle. Include paths containing blanks are not supported by the code (split on whitespace) and are not generated; the 'quotes/trailing comment do not matter' clause is covered by correspondence and oracle, not yet by a theorem.",
   ref="§6 C15"),
+ "C10": dict(
+  technique="Lean 4 proofs by structural induction over expression trees (normal forms balanced / one group / derivable in the grammar ladder as a tree of the same shape / fixpoint / leaves in order) + `decide` obligations pinning the ladder rules of the regenerated grammar tables + exact-string correspondence on real Lark trees",
+  text="Kernel-checked over Model/Expr.lean for every expression tree (unbounded size): C10_bal_norm, C10_top_oneGroup (what is stored is one parenthesised group), C10_derivable (for every tree obeying the ladder's level discipline, the normalised tokens are a sentence of the grammar ladder G, derived as `re e` at the tree's own level — the added parentheses are never *needed* to regroup), C10_shape_re (re e has the same operator tree, operands and operator spellings: added parentheses never regroup operands), C10_norm_re (re-reading and re-normalising gives the same string), C10_leaves_in_order (operands and operator spellings unchanged and in order); Ladder.* (`decide` over Gen/Grammar.lean: or_test, and_test, comparison, sum/add/sub, product/mul/div/power, unary_expr/neg, atom, expression, not_expression, func_call, value, compare_op have exactly the alternatives G was written from). C10_old_test_witness keeps the repaired defect as a witness. Tied to transformer.py by exact-string correspondence on the real Lark tree of every generated expression; the oracle reads the stored string with an independent precedence parser (same operator tree, same leaves, one group, dumps/loads fixpoint) for all tree shapes up to a bound and random trees to 40 operators.",
+  note="Trusted: Lean kernel; hand model of the expression call-backs (correspondence each run); grammar tables regenerated through Lark's loader; Lark's LALR shift preference (that the real parser derives exactly the ladder's tree) is exercised, not proved; function arguments are operands; '%' (comparison operator in the grammar, arithmetic in the property text) and the literal 0 under unary minus are not generated.",
+  ref="§6 C10"),
 }
 NOT_APPLICABLE = {}
 ALL = [f"C{i:02d}" for i in range(1, 21)]
